@@ -64,6 +64,13 @@ TYPED_SPECS = [
          assign="sample_idx", nth=0,
          inputs={"j": ("j", "Nat"), "self._buffer.size": ("t", "Nat"), "self.dims[i]": ("d", "Nat")},
          vars=[("j", "Nat"), ("t", "Nat"), ("d", "Nat")], result="Nat"),
+] + [
+    # learning rates of CMA-ES as functions of mueff and the dimension (`_calc_strat_params`)
+    dict(name=f"cma{nm.capitalize()}", file="ribs/emitters/opt/_cma_es.py",
+         func="CMAEvolutionStrategy._calc_strat_params", assign=nm, nth=0,
+         inputs={"mueff": ("mueff", "Rat"), "self.solution_dim": ("n", "Rat")},
+         vars=[("mueff", "Rat"), ("n", "Rat")], result="Rat")
+    for nm in ("cc", "cs", "c1", "cmu")
 ]
 
 SL_SPECS = [
@@ -120,7 +127,9 @@ def exact_literal(v):
     if isinstance(v, float):
         if v != v or v in (float("inf"), float("-inf")):
             raise Untranslatable(f"literal {v!r}")
-        n, d = v.as_integer_ratio()
+        from fractions import Fraction
+        fr_ = Fraction(repr(v))         # the literal as the source spells it (1.3 is 13/10)
+        n, d = fr_.numerator, fr_.denominator
         return f"({n} : Rat)" if d == 1 else f"(({n} : Rat) / {d})"
     return f"({v} : Rat)"
 
@@ -194,47 +203,59 @@ def translate_one(repo, spec):
     return to_lean(node, spec, assigns), node.lineno, ast.unparse(node)
 
 
-def sl_expr(node, sym):
-    """(lean text, type) of an expression under the symbolic state `sym` (text -> (lean, type))."""
+def sl_expr(node, sym, assigns=None, depth=0):
+    """(lean text, type) of an expression under the symbolic state `sym` (text -> (lean, type)); with `assigns`
+    a local name that is not in `sym` and is defined exactly once in the function is inlined."""
+    if depth > 12:
+        raise Untranslatable("definition chain too deep")
     text = ast.unparse(node)
     if text in sym:
         return sym[text]
+    if assigns is not None and isinstance(node, ast.Name):
+        vals = assigns.get(node.id, [])
+        if len(vals) == 1:
+            return sl_expr(vals[0], sym, assigns, depth + 1)
+        raise Untranslatable(f"name {node.id} ({len(vals)} definitions)")
     if isinstance(node, ast.Constant):
         v = node.value
         if isinstance(v, int) and not isinstance(v, bool) and v >= 0:
             return str(v), "Lit"
         return exact_literal(v), "Rat"
     if isinstance(node, ast.UnaryOp) and isinstance(node.op, ast.USub):
-        e, t = sl_expr(node.operand, sym)
+        e, t = sl_expr(node.operand, sym, assigns, depth + 1)
         return f"(-{rat(e, t)})", "Rat"
     if isinstance(node, ast.BinOp):
         if isinstance(node.op, ast.Pow):
-            b, bt = sl_expr(node.left, sym)
-            e, et = sl_expr(node.right, sym)
+            b, bt = sl_expr(node.left, sym, assigns, depth + 1)
+            e, et = sl_expr(node.right, sym, assigns, depth + 1)
             if et not in ("Nat", "Lit"):
                 raise Untranslatable(f"exponent {ast.unparse(node.right)} is not a natural number")
             return f"({rat(b, bt)} ^ {e})", "Rat"
         ops = {ast.Add: "+", ast.Sub: "-", ast.Mult: "*", ast.Div: "/"}
         if type(node.op) not in ops:
             raise Untranslatable(f"operator {type(node.op).__name__}")
-        a, at = sl_expr(node.left, sym)
-        b, bt = sl_expr(node.right, sym)
+        a, at = sl_expr(node.left, sym, assigns, depth + 1)
+        b, bt = sl_expr(node.right, sym, assigns, depth + 1)
         if isinstance(node.op, (ast.Add, ast.Mult)) and {at, bt} <= {"Nat", "Lit"} and "Nat" in (at, bt):
             return f"({a} {ops[type(node.op)]} {b})", "Nat"
         return f"({rat(a, at)} {ops[type(node.op)]} {rat(b, bt)})", "Rat"
     if isinstance(node, ast.Call):
         fn = call_name(node.func)
         if fn in IDENTITY_CALLS and node.args:
-            return sl_expr(node.args[0], sym)
+            return sl_expr(node.args[0], sym, assigns, depth + 1)
         if fn == "int" and len(node.args) == 1 and isinstance(node.args[0], ast.BinOp) \
                 and isinstance(node.args[0].op, ast.Div):
-            a, at = sl_expr(node.args[0].left, sym)
-            b, bt = sl_expr(node.args[0].right, sym)
+            a, at = sl_expr(node.args[0].left, sym, assigns, depth + 1)
+            b, bt = sl_expr(node.args[0].right, sym, assigns, depth + 1)
             if {at, bt} <= {"Nat", "Lit"}:
                 return f"({a} / {b})", "Nat"          # truncation of a quotient of naturals = floor division
             raise Untranslatable("int() of a quotient that is not over naturals")
+        if fn == "min" and len(node.args) == 2:
+            a, at = sl_expr(node.args[0], sym, assigns, depth + 1)
+            b, bt = sl_expr(node.args[1], sym, assigns, depth + 1)
+            return f"(if {rat(a, at)} ≤ {rat(b, bt)} then {rat(a, at)} else {rat(b, bt)})", "Rat"
         if fn == "np.sqrt" and len(node.args) == 1:
-            e, t = sl_expr(node.args[0], sym)
+            e, t = sl_expr(node.args[0], sym, assigns, depth + 1)
             return f"(sq {rat(e, t)})", "Rat"
         raise Untranslatable(f"call {fn}(...)")
     raise Untranslatable(f"expression {text[:60]}")
@@ -300,7 +321,7 @@ def translate(repo, out_path):
             if len(vals) <= spec["nth"]:
                 raise Untranslatable(f"no assignment to {spec['assign']}")
             node = vals[spec["nth"]]
-            e, t = sl_expr(node, dict(spec["inputs"]))
+            e, t = sl_expr(node, dict(spec["inputs"]), assignments(func))
             if (t == "Nat") != (spec["result"] == "Nat"):
                 raise Untranslatable(f"result type {t}, expected {spec['result']}")
             expr, line, src, ok, why = (e if t == "Nat" else rat(e, t)), node.lineno, ast.unparse(node), True, ""
